@@ -18,6 +18,7 @@ RULE = ('cases = every (epoch, n_epochs) pair with n_epochs 1..50 and epoch 0..n
         'BaseRegularizer with random strengths.  Non-trivial: at least one cost above target and '
         'one not above (mixed), or an annealing position strictly inside the schedule; '
         'distinct = (epoch, n_epochs, cost placement, strengths mode).')
+RULE += ('  Round 3: derived strengths with metrics that start below their target and exceed it in a later call (value stays finite and non-negative).')
 ASSUMPTIONS = [
     '"positive final strengths" is read as positive and finite (a cost exactly at its target gives '
     'a derived strength of inf, outside the premise)',
